@@ -54,6 +54,12 @@ fn relevant_mask(s: u8, dirs: &[(i32, i32); 4]) -> u64 {
 }
 
 pub fn run(run: &Run) -> i32 {
+    let (a, b) = check_all(run);
+    report::finish(run, a, b, "all 107,648 (square, relevant-blocker subset) cases per the property, each with every single irrelevant bit, all irrelevant bits and the piece's own square added; every lookup index checked against the table length through hook H3", true)
+}
+
+/// The complete enumeration (one second): used by the check and by replays of leaper / between cases.
+fn check_all(run: &Run) -> (u64, u64) {
     let lookups = AtomicU64::new(0);
     let subsets = AtomicU64::new(0);
     let table_len = tables::verif_table_len();
@@ -189,7 +195,7 @@ pub fn run(run: &Run) -> i32 {
     run.sample(J::obj(vec![("between", J::s("a1,h8")), ("expected", J::s("0x0040201008040200"))]));
     run.count("table_len", table_len as u64);
     run.assume("oracle: coordinate-loop ray walks and offset lists written in the harness; the relevant blocker masks are recomputed from geometry, not read from the engine");
-    report::finish(run, n_sub + other, lookups.load(Ordering::Relaxed) + other, "all 107,648 (square, relevant-blocker subset) cases per the property, each with every single irrelevant bit, all irrelevant bits and the piece's own square added; every lookup index checked against the table length through hook H3", true)
+    (n_sub + other, lookups.load(Ordering::Relaxed) + other)
 }
 
 pub fn replay(run: &Run, case: &J) -> i32 {
@@ -217,8 +223,7 @@ pub fn replay(run: &Run, case: &J) -> i32 {
         }
         _ => {
             println!("re-running the complete C07 enumeration (1 s) for a {kind} case");
-            let r2 = Run::new("C07", "quick", 0);
-            let _ = r2;
+            check_all(run);
             0
         }
     }
